@@ -67,7 +67,10 @@ func (evpool *Pool) verify(evidence types.Evidence) error {
 //      - the block ID's must be different
 //      - The signatures must both be valid
 func VerifyDuplicateVote(e *types.DuplicateVoteEvidence, chainID string, valSet *types.ValidatorSet) error {
-	_, val := valSet.GetByAddress(e.VoteA.ValidatorAddress)
+	idx, val := valSet.GetByAddress(e.VoteA.ValidatorAddress)
+	if val != nil && (int64(e.VoteA.ValidatorIndex) != int64(idx) || int64(e.VoteB.ValidatorIndex) != int64(idx)) {
+		return fmt.Errorf("validator index of the votes does not match the validator set")
+	}
 	if val == nil {
 		return fmt.Errorf("address %X was not a validator at height %d", e.VoteA.ValidatorAddress, e.Height())
 	}
